@@ -130,6 +130,29 @@ def compiled_family(prop, tier, seed):
             m = f"fn m{i}() -> String {{ {pre} obs_anim(animator!({src[i]})) }}"
             r = f"fn r{i}() -> String {{ {pre} obs_anim({ref}) }}"
         cases[i] = (m, r)
+    if kind == "mtl":
+        # directed: `timeline!` inside a `macro_rules!` wrapper that forwards an expression of its caller — the expression
+        # keeps meaning what it meant where it was written (the caller's `x`), although the wrapper has a local of that name
+        loc = "#[allow(unused_variables)] let (x, y, alpha, size) = (11.5f32, -3.25f32, 0.625f32, 40.0f32);"
+        wrapped = [
+            ("x", "x + 1.0", "Style 2s to {{ x: ($v) }}", "Style::timeline().duration_seconds(2.0).keyframe(Style::keyframe(1.0).x(x + 1.0)).build()"),
+            ("y", "y * 2.0", "Style 3s Easing::OutQuad from {{ y: ($v) }} to {{ y: 9.0 }}", "Style::timeline().duration_seconds(3.0).default_easing(Easing::OutQuad).keyframe(Style::keyframe(0.0).y(y * 2.0)).keyframe(Style::keyframe(1.0).y(9.0)).build()"),
+            ("alpha", "alpha", "Style 1s 50% {{ alpha: ($v) }}", "Style::timeline().duration_seconds(1.0).keyframe(Style::keyframe(0.5).alpha(alpha)).build()"),
+        ]
+        for k, (name, expr, sentence, ref) in enumerate(wrapped):
+            i = 900000 + k
+            sent = sentence.replace("{{", "{").replace("}}", "}")
+            m = (f"fn m{i}() -> String {{ {loc} macro_rules! wrap{i} {{ ($v:expr) => {{{{ #[allow(unused_variables)] let {name} = 77.0f32; "
+                 f"obs_tl(timeline!({sent})) }}}} }} wrap{i}!({expr}) }}")
+            r = f"fn r{i}() -> String {{ {loc} obs_tl({ref}) }}"
+            cases[i] = (m, r)
+            hist["compiled-wrapped"] = hist.get("compiled-wrapped", 0) + 1
+    class _Lbl(list):
+        """op / model / source lists that also answer for the directed cases (indices ≥ 900000)"""
+        def __init__(self, base, extra): super().__init__(base); self.extra = extra
+        def __getitem__(self, i): return self.extra.get(i, "") if isinstance(i, int) and i >= 900000 else super().__getitem__(i)
+    directed = {i: (m + "  //  " + r) for i, (m, r) in cases.items() if i >= 900000}
+    ops, model, src = _Lbl(ops, {i: "directed: timeline! inside a macro_rules! wrapper — " + d[:300] for i, d in directed.items()}), _Lbl(model, {}), _Lbl(src, directed)
     problems, notes, fails = [], [], []
     gen_path = os.path.join(CRATE, "src", f"gen_{binname}.rs")
     lock = os.path.join(CRATE, "Cargo.lock")
